@@ -8,6 +8,9 @@ import (
 	"testing/synctest"
 
 	goat "github.com/avos-io/goat"
+	"github.com/avos-io/goat/gen/goatorepo"
+	"github.com/avos-io/goat/internal/verifhook"
+	"google.golang.org/grpc"
 )
 
 // TestC07: for every base trace a cancellation after EVERY prefix of its action sequence.
@@ -115,6 +118,16 @@ func TestC06(t *testing.T) {
 		}
 		run("c06-e2e", sc)
 	}
+	// the reset-vs-trailer window (D-06a): the writer goroutine is held between taking the trailer and writing it while a
+	// late body makes the read loop answer with a reset
+	if want(idx) {
+		em.Marker("begin", idx)
+		c2s, s2c := replayResetVsTrailer(t)
+		em.Emit(Rec{Idx: idx, Kind: "c06-server", Desc: "writer parked after taking the trailer; a late body arrives; the reset must not overtake the trailer",
+			Tags: []string{"c06", "family:replay", "what:reset-vs-trailer"}, Coq: cwCaseCoq("CwRun", cwScenario{Mode: "server"}, nil, c2s, s2c, nil)})
+		em.Marker("end", idx)
+	}
+	idx++
 	// the witness of C06_client_refuted, replayed on the real client (known finding)
 	if want(idx) {
 		em.Marker("begin", idx)
@@ -160,4 +173,44 @@ func replayCloseAfterAbortReset(t *testing.T) (c2s []*Rpc) {
 		synctest.Wait()
 	})
 	return c2s
+}
+
+func replayResetVsTrailer(t *testing.T) (c2s, s2c []*Rpc) {
+	bubble(t, func(t *testing.T) {
+		ep := NewEndpoint("s")
+		release := make(chan struct{})
+		srv := newEchoServer("dst", &echoImpl{stream: func(kind string, s grpc.ServerStream) error {
+			<-release
+			return nil
+		}})
+		ctx, cancel := context.WithCancel(context.Background())
+		go srv.Serve(ctx, ep)
+		send := func(r *Rpc) { c2s = append(c2s, clone(r)); ep.Deliver(r) }
+		send(&Rpc{Id: 1, Header: hdr("/verif.Echo/Bidi", "src", "dst")})
+		synctest.Wait()
+		gate := make(chan struct{})
+		parked := make(chan struct{}, 1)
+		verifhook.SetYield(func(pt string) {
+			if pt == "srv.writer.taken" {
+				select {
+				case parked <- struct{}{}:
+					<-gate
+				default:
+				}
+			}
+		})
+		close(release) // the handler returns; the writer takes the trailer and parks
+		synctest.Wait()
+		<-parked
+		send(&Rpc{Id: 1, Header: hdr("/verif.Echo/Bidi", "src", "dst"), Body: &goatorepo.Body{Data: bodyBytes(7)}})
+		synctest.Wait()
+		close(gate)
+		verifhook.SetYield(nil)
+		synctest.Wait()
+		s2c = ep.WrittenCopy()
+		cancel()
+		ep.FailRead(errInjected)
+		synctest.Wait()
+	})
+	return
 }
